@@ -154,6 +154,7 @@ func main() {
 	witness := fs.String("witness", "", "witness file (replay)")
 	seed := fs.Int("seed", 0, "solver seed")
 	verbose := fs.Bool("v", false, "verbose")
+	maxtime := fs.Int("maxtime", 0, "stop exploring after this many seconds (results marked truncated)")
 	var pvals multiFlag
 	fs.Var(&pvals, "p", "parameter name=v1,v2,... (cartesian product of instances)")
 	fs.Parse(os.Args[2:])
@@ -286,6 +287,34 @@ func main() {
 		fmt.Fprintf(os.Stderr, "[%s %v] paths=%v asserts=%s queries=%d (%.1fs solver, %.1fs wall)\n",
 			r.Name, r.Params, r.Paths, summarizeAsserts(r), r.Stats.Queries, r.Stats.Seconds, r.WallS)
 	}
+	stopProgress := make(chan bool)
+	go func() {
+		tk := time.NewTicker(15 * time.Second)
+		defer tk.Stop()
+		for {
+			select {
+			case <-stopProgress:
+				return
+			case <-tk.C:
+				mu.Lock()
+				tot := 0
+				for _, n := range npaths {
+					tot += n
+				}
+				fmt.Fprintf(os.Stderr, "  ... %.0fs: %d paths done, %d queued/running\n", time.Since(t0).Seconds(), tot, outstanding)
+				if *maxtime > 0 && time.Since(t0).Seconds() > float64(*maxtime) && len(stack) > 0 {
+					for _, t := range stack {
+						results[t.inst].Truncated = true
+						remaining[t.inst]--
+					}
+					outstanding -= len(stack)
+					stack = nil
+					cond.Broadcast()
+				}
+				mu.Unlock()
+			}
+		}
+	}()
 	var wg sync.WaitGroup
 	for w := 0; w < *jobs; w++ {
 		wg.Add(1)
@@ -377,6 +406,7 @@ func main() {
 		}()
 	}
 	wg.Wait()
+	close(stopProgress)
 	for i := range insts {
 		finish(i)
 	}
